@@ -126,9 +126,12 @@ def encode_order(rng, cls):
     style = rng.choice(["none?", "int", "int", "float", "mixed", "neg", "big", "bool?", "scores", "scores_f", "scores_neg", "frac", "bigint"])
     if style == "bigint":
         base = rng.choice([2**53, 10**18, -(2**62), 2**64])
-        if rng.random() < 0.5:
+        r = rng.random()
+        if r < 0.35:
             return {"ranks": [base + c for c in cls]}, style
-        return {"scores": [base - c for c in cls]}, style
+        if r < 0.7:
+            return {"scores": [base - c for c in cls]}, style
+        return {"ranks": [(2**53 + c) if c % 2 else float(2**53 + c) for c in cls]}, style
     if style == "none?":
         if cls == list(range(n)):
             return {}, "none"
@@ -215,9 +218,16 @@ def rate_campaign(sess, rng, count, kinds=KINDS, max_teams=8, max_players=8, sim
             kw["tau"] = rng.choice([0, 0.0, beta * 1e-6, beta / 50.0, beta * rng.random(), beta])
         if rng.random() < 0.25:
             kw["limit_sigma"] = rng.random() < 0.6
+            if rng.random() < 0.2:
+                kw["limit_sigma"] = int(kw["limit_sigma"])     # a truthy / falsy int is a flag too
         eff_tau = kw.get("tau", mh.m.tau)
         shape = pick_shape(rng, max_teams, max_players)
         teams = build_teams(rng, mh, shape, beta, eff_tau > 0)
+        if eff_tau == 0 and rng.random() < 0.3:   # a player without uncertainty beside team mates who have some
+            multi = [t for t in teams if len(t) > 1]
+            if multi:
+                t = rng.choice(multi)
+                t[rng.randrange(len(t))].sigma = rng.choice([0.0, 0])
         if rng.random() < 0.12:   # value-identical line-ups (different objects)
             k = rng.randrange(len(teams))
             for i in range(len(teams)):
@@ -301,7 +311,17 @@ def predict_campaign(sess, rng, count, kinds=KINDS, max_teams=8, max_players=8):
             k = rng.randrange(len(teams))
             for i in range(len(teams)):
                 if i != k and rng.random() < 0.6:
-                    teams[i] = [mh.m.rating(p.mu, p.sigma) for p in teams[k]]
+                    r = rng.random()
+                    if r < 0.6:
+                        teams[i] = [mh.m.rating(p.mu, p.sigma) for p in teams[k]]
+                    elif r < 0.75:
+                        teams[i] = teams[k]                    # the same list object in two positions
+                    elif r < 0.85:
+                        teams[i] = list(teams[k])              # the same rating objects in another list
+                    else:
+                        src = list(teams[k])                   # the same roster listed in another order
+                        rng.shuffle(src)
+                        teams[i] = [mh.m.rating(p.mu, p.sigma) for p in src]
         if rng.random() < 0.3:
             pollute(sess, rng, kind, params, g, [[(p.mu, p.sigma) for p in t] for t in teams], ("win", "draw", "rank"))
         if rng.random() < 0.15:
@@ -368,6 +388,9 @@ def all_encodings(rng, cls):
     encs.append({"ranks": [(c + 1) * 10**12 for c in cls]})
     encs.append({"ranks": [9007199254740992.0 + 2.0 * c for c in cls]})
     encs.append({"ranks": [2**53 + c for c in cls]})               # distinct ints that are not distinct doubles
+    encs.append({"ranks": [(2**53 + c) if c % 2 else float(2**53 + c) for c in cls]})      # ints and floats within one ulp of each other
+    encs.append({"ranks": [(2**60 + 256 * c + 1) if c % 2 else float(2**60 + 256 * c) for c in cls]})
+    encs.append({"scores": [(2**53 + 2 * k - c) if (c % 2) else float(2**53 + 2 * k - c - (c % 2)) for c in cls]})
     encs.append({"ranks": [10**18 + c for c in cls]})
     encs.append({"ranks": [-(2**60) + c for c in cls]})
     encs.append({"scores": [2**53 + 2 * k - c for c in cls]})
@@ -498,6 +521,11 @@ def effopts_groups(sess, rng, count, kinds=KINDS):
         sess.rate(m_tau, make_teams(m_tau, vals), tau=t, group=gid, role="effopts", **okw)
         m_lim = sess.model(kind, tau=float(t), limit_sigma=other_lim)    # only limit_sigma per call
         sess.rate(m_lim, make_teams(m_lim, vals), limit_sigma=b, group=gid, role="effopts", **okw)
+        m_pos = sess.model(kind, tau=other_tau, limit_sigma=other_lim)   # options passed by position, in the documented order
+        pk = dict(okw)
+        pk.setdefault("ranks", None)
+        pk.setdefault("scores", None)
+        sess.rate(m_pos, make_teams(m_pos, vals), tau=t, limit_sigma=b, group=gid, role="effopts", positional=True, **pk)
         m_none = sess.model(kind, tau=float(t), limit_sigma=b)           # explicit None = omitted
         sess.rate(m_none, make_teams(m_none, vals), tau=None, limit_sigma=None, group=gid, role="effopts", **okw)
 
@@ -695,6 +723,37 @@ def predict_relations(sess, rng, count, kinds=KINDS):
         DUP_IDS[0] = False
 
 
+def near_tie_ranks(sess, rng, count, kinds=KINDS):
+    """C11: teams whose totals agree up to the last bit (the same roster summed in another order) - equal returned
+    probabilities must share a rank, unequal ones must not."""
+    import itertools
+    for _ in range(count):
+        kind = rng.choice(kinds)
+        params, g, beta = pick_model_params(rng, kind, simple=True)
+        sess.reset()
+        mh = sess.model(kind, gamma=g, **params)
+        size = rng.choice([3, 3, 4, 5])
+        roster = [(pick_mu(rng, beta), pick_sigma(rng, beta)) for _i in range(size)]
+        orders = [list(roster)]
+        base_sum = sum(m for (m, _s) in roster)
+        perms = list(itertools.permutations(roster))
+        rng.shuffle(perms)
+        for p in perms[:40]:
+            t = 0.0
+            for (m, _s) in p:
+                t += m
+            if t != base_sum and len(orders) < 3:
+                orders.append(list(p))
+        while len(orders) < 2:
+            orders.append(list(perms[0]))
+        n = rng.choice([3, 3, 4, 5])
+        vals = list(orders)
+        while len(vals) < n:
+            vals.append([(pick_mu(rng, beta), pick_sigma(rng, beta)) for _i in range(rng.randint(1, size))])
+        rng.shuffle(vals)
+        sess.predict("rank", mh, make_teams(mh, vals))
+
+
 def model_groups(sess, rng, count):
     """C19: the same call on all five classes (predictions, acceptance, BT part = full on two teams)."""
     for _ in range(count):
@@ -721,6 +780,18 @@ def model_groups(sess, rng, count):
 
 
 # ============================================================================= objects
+class Permissive:
+    """A foreign object whose own __eq__ claims equality with everything (like unittest.mock.ANY)."""
+
+    def __eq__(self, other):
+        return True
+
+    def __ne__(self, other):
+        return False
+
+    __hash__ = None
+
+
 def object_campaign(sess, rng, count, kinds=KINDS):
     """C18 / C20: construction, copies, comparisons, ordinals, sorting."""
     grid_mu = [-3.0, -1.5, 0.0, 1.5, 3.0, 6.0, 25.0, -0.0]
@@ -770,6 +841,19 @@ def object_campaign(sess, rng, count, kinds=KINDS):
             else:
                 sess.ordinal(a, z=z)
         sess.sort(list(pool))
+        # ask, edit the object in place, ask again (values chosen so that hashes of old and new values may collide)
+        for (m1, m2) in [(-1.0, -2.0), (-1, -2), (rng.choice(grid_mu), rng.choice(grid_mu))]:
+            a = mh.m.rating(m1, rng.choice([1.0, -1.0, 2.0]))
+            b = mh.m.rating(0.5, 1.0)
+            sess.ordinal(a)
+            sess.compare("lt", a, b)
+            sess.assign(a, m2, a.sigma)
+            sess.ordinal(a)
+            sess.compare(rng.choice(["lt", "le", "gt", "ge"]), a, b)
+            sess.assign(a, a.mu, -2.0 if a.sigma == -1.0 else a.sigma + 0.5)
+            sess.ordinal(a, z=2)
+            sess.ordinal(a)
+            sess.sort([a, b, mh.m.rating(a.mu, a.sigma)])
         # copies
         sess.deepcopy(pool[0])
         nested = [[pool[0], pool[1]], [pool[2]]]
@@ -791,6 +875,12 @@ def object_campaign(sess, rng, count, kinds=KINDS):
             gid = GID.new("C19", "cmp")
             for i, m2 in enumerate([mh] + others):
                 sess.compare(cop, m2.m.rating(*va), m2.m.rating(*vb), group=gid, role="same" if i else "base")
+            # foreign operands, the same on every class - including one whose own __eq__ accepts anything
+            fop = rng.choice([Permissive(), Permissive(), 3, "x", None, 2.5])
+            cop = rng.choice(["eq", "ne", "eq", "lt"])
+            gid = GID.new("C19", "cmpf")
+            for i, m2 in enumerate([mh] + others):
+                sess.compare(cop, m2.m.rating(*va), fop, group=gid, role="same" if i else "base")
         # hashes: equal for equal (id, mu, sigma), across copies and classes
         gid = GID.new("C19", "hash")
         import copy as _copy
@@ -829,6 +919,16 @@ def restore_groups(sess, rng, count, kinds=KINDS, games=6):
             else:
                 import copy as _copy
                 rt = _copy.deepcopy(lt)
+            if op == "rate" and rng.random() < 0.25:
+                # mirror match: a team against an id-preserving deep copy of itself, and the same game with rebuilt players
+                import copy as _copy
+                g2 = GID.new("C20", "mirror")
+                a_live = [[_copy.deepcopy(live[i]) for i in split[0]]]
+                mirror = a_live + _copy.deepcopy(a_live)
+                rebuilt = [[mh.m.create_rating([p.mu, p.sigma]) for p in t] for t in mirror]
+                mk, _ = encode_order(rng, weak_order(rng, 2))
+                sess.rate(mh, rebuilt, group=g2, role="base", **mk)
+                sess.rate(mh, mirror, group=g2, role="same", **mk)
             if op == "rate":
                 out1 = sess.rate(mh, lt, group=gid, role="base", **okw)
                 out2 = sess.rate(mh, rt, group=gid, role="same", **okw)
@@ -857,6 +957,13 @@ def bad_values(mh, foreign_mh, own):
         ("foreign", foreign_mh.m.rating(20.0, 5.0)), ("own_rating", own), ("list_of_rating", [mh.m.rating(21.0, 4.0)]),
         ("true", True), ("neg", -2), ("zero_f", -0.0),
     ]
+
+
+def numlike_values(twin):
+    """Objects that compare (and hash) equal to the number twin but are neither int nor float."""
+    import decimal
+    import fractions
+    return [("decimal", decimal.Decimal(twin)), ("fraction", fractions.Fraction(twin)), ("complex", complex(twin, 0.0))]
 
 
 def _subst(container, path, value):
@@ -925,6 +1032,16 @@ def malformed_campaign(sess, rng, count, kinds=KINDS, ops=("rate", "win", "draw"
                         continue  # falsy non-list selectors are not specified (DESIGN 6/C13)
                     s2 = _subst(list(ranks0), path, val)
                     sess.rate(mh, teams, **{sel: s2})
+            # a non-number that equals a number elsewhere in the same list (before and after its twin)
+            for i in range(n):
+                for jtwin in range(n):
+                    if jtwin == i:
+                        continue
+                    for k3 in range(3):
+                        mh, fm, teams = fresh()
+                        s2 = list(ranks0)
+                        s2[i] = numlike_values(ranks0[jtwin])[k3][1]
+                        sess.rate(mh, teams, **{sel: s2})
             for variant in ["short", "long", "both", "both_bad", "bools", "negs", "zeros", "floats", "mixed"]:
                 mh, fm, teams = fresh()
                 if variant == "short":
@@ -1039,6 +1156,20 @@ def kernel_sweep(sess, rng, step, nts, randoms):
         r = rng.random()
         x = rng.uniform(-40, 40) if r < 0.6 else rng.uniform(-9, -5) if r < 0.8 else rng.gauss(0, 1e-3) if r < 0.9 else rng.uniform(-1, 1) * t * 3
         emit(rng.choice(["v", "w", "vt", "wt"]), x, t)
+    # call patterns as the models produce them: the same |x| with both signs and the same t back to back, repeated calls,
+    # interleaved functions - a value must not depend on what was evaluated before
+    for _ in range(randoms // 6):
+        t = 10 ** rng.uniform(-8, -2)
+        x = rng.choice([rng.uniform(-9, 9), rng.uniform(-3, 3), rng.uniform(-40, 40)])
+        names = [rng.choice(["v", "w", "vt", "wt"]) for _k in range(2)]
+        for name in names:
+            emit(name, x, t)
+            emit(name, -x, t)
+            emit(name, x, t)
+        emit("vt", x, t)
+        emit("wt", -x, t)
+        emit("vt", -x, t)
+        emit("wt", x, t)
     for x in [1e3, -1e3, 1e10, -1e10, 1e154, -1e154, 1e300, -1e300, 1.7e308, -1.7e308, 5e-324, -5e-324, 0.0, -0.0]:
         for t in (1e-8, 1e-5, 1e-2):
             for name in ("v", "w", "vt", "wt"):
@@ -1153,3 +1284,35 @@ def thread_executions(sess, rng, count, thread_log, kinds=KINDS, nthreads=(2, 2,
         for plan in plans:
             x += 1
             _sched.run_execution(sess, x, kind, params, g, calls, plan, thread_log)
+
+
+def thread_executions_fine(sess, rng, count, thread_log, kinds=("TMF", "TMP", "PL", "BTF", "BTP"), stride=1, xbase=100000):
+    """Two concurrent calls pre-empted at EVERY Python function call inside the library (sys.settrace), not only at
+    model accesses: thread 0 runs k yield points, thread 1 runs to completion, thread 0 resumes - for every k.
+    Reaches shared locations other than the model object (module or class level state)."""
+    import sched as _sched
+
+    x = xbase
+    for ci in range(count):
+        kind = kinds[ci % len(kinds)]
+        params, g, beta = pick_model_params(rng, kind, simple=True)
+        params["tau"] = beta / 3.0
+        calls = []
+        for t in range(2):
+            shape = [rng.randint(1, 2), rng.randint(1, 2)] + ([1] if rng.random() < 0.4 else [])
+            vals = random_vals(rng, shape, beta, False)
+            vals = [[(mu, min(sg, 2 * beta)) for (mu, sg) in tv] for tv in vals]
+            n = len(shape)
+            ranks = [0] * n if rng.random() < 0.6 else weak_order(rng, n)      # ties: the draw kernels
+            kw = {"ranks": ranks}
+            if rng.random() < 0.3:
+                kw["limit_sigma"] = True
+            calls.append({"op": "rate", "vals": vals, "kw": kw})
+        # how many yield points does thread 0 have?  (dry run, thread 0 alone first)
+        counter = [0]
+        x += 1
+        _sched.run_execution(sess, x, kind, params, g, calls, [(0, None), (1, None)], thread_log, fine=True, counter=counter)
+        total = counter[0] + 40
+        for k in range(0, total, stride):
+            x += 1
+            _sched.run_execution(sess, x, kind, params, g, calls, [(0, k), (1, None), (0, None)], thread_log, fine=True)
